@@ -130,6 +130,7 @@ func runBox(r *prng.R, s *out.Sink, tier string) {
 			ids      []int
 		}
 		good := map[int]*liveT{}
+		srcOf := map[int]uint16{}
 		epoch := 0
 		lastGC := uint64(0)
 		// a collection (observable through lastGC) discards, as documented, what was unused for more than
@@ -151,6 +152,7 @@ func runBox(r *prng.R, s *out.Sink, tier string) {
 				src := uint16(1 + r.Intn(3))
 				topic := r.Intn(8)
 				nextID++
+				srcOf[nextID] = src
 				emit("recv", true, fmt.Sprintf("box recv %d %d %d", src, topic, nextID), rg.recv(src, topic, nextID))
 			case x < 60:
 				// the well-behaved sender, only if it stays within the limits
@@ -159,6 +161,7 @@ func runBox(r *prng.R, s *out.Sink, tier string) {
 					continue
 				}
 				nextID++
+				srcOf[nextID] = 9
 				ans := rg.recv(9, topic, nextID)
 				emit("recv-good", true, fmt.Sprintf("box recv 9 %d %d", topic, nextID), ans)
 				if strings.HasPrefix(ans, "h") {
@@ -196,6 +199,7 @@ func runBox(r *prng.R, s *out.Sink, tier string) {
 				topic := r.Intn(8)
 				for k := 0; k < 95+r.Intn(15); k++ {
 					nextID++
+					srcOf[nextID] = src
 					emit("burst", true, fmt.Sprintf("box recv %d %d %d", src, topic, nextID), rg.recv(src, topic, nextID))
 				}
 			case x < 97:
@@ -216,8 +220,38 @@ func runBox(r *prng.R, s *out.Sink, tier string) {
 				src := uint16(1 + r.Intn(3))
 				for k := 0; k < maxTopics+3; k++ {
 					nextID++
+					srcOf[nextID] = src
 					emit("topic-flood", true, fmt.Sprintf("box recv %d %d %d", src, 40+k, nextID), rg.recv(src, 40+k, nextID))
 				}
+			}
+			// bound on buffered topics per sender, by behaviour: now and then start every topic and count, per sender,
+			// on how many topics messages of that sender come out of the buffer at this one moment
+			if i == nOps-1 || r.Intn(60) == 0 {
+				perSender := map[uint16]map[int]bool{}
+				for t := 0; t < 64; t++ {
+					if rg.box.VerifSnapshot().BufferedMsgs == 0 {
+						break
+					}
+					ans := rg.send(t)
+					emit("release-all", true, fmt.Sprintf("box send %d", t), ans)
+					for _, f := range strings.Fields(strings.Split(ans, "|")[0]) {
+						var id int
+						if n, _ := fmt.Sscanf(f, "h%d", &id); n == 1 {
+							src := srcOf[id]
+							if perSender[src] == nil {
+								perSender[src] = map[int]bool{}
+							}
+							perSender[src][t] = true
+						}
+					}
+				}
+				for src, ts := range perSender {
+					if len(ts) > maxTopics+1 {
+						s.Violate("C15", fmt.Sprintf("sender %d had messages buffered on %d topics at once, the limit is %d (give or take one)", src, len(ts), maxTopics), strings.Join(hist, "\n"))
+					}
+				}
+				good = map[int]*liveT{}
+				collect()
 			}
 			// bounds, directly on the implementation
 			sn := rg.box.VerifSnapshot()
